@@ -30,16 +30,19 @@
      VIOL class=ill-typed-stage:core-inside-guard <name> ..  the source satisfies prog_tyguard (the hypothesis of theorem
                                  C12_fun2core_preserves_typing_fragment2) and the REAL fun2core output is ill-typed:
                                  would contradict the theorem (model/code mismatch)
+     VIOL class=ill-typed-stage:<stage>-inside-pipeline-guard ..  all hypotheses of theorem C12_pipeline_wt hold (prog_tyguard
+                                 of the source, pre_check of the real Core output, names_ok and decls_ok of the real focused
+                                 output) and a checker rejects a REAL stage output: would contradict the theorem
      VIOL class=ill-typed-stage:<stage> <name> <why>        any other failure of a checker
      VIOL class=internal-failure:<stage> <name> <panic message>    any non-capacity panic, any panic within capacity
-     OK k nt <risk> <f2c-guard | f2c-noguard:why> x86:<ok|ok-beyond|cap> a64:<..> rv:<ok|ok-beyond|cap|noprint> ctx<log2 max context> size<log2 nodes>
+     OK k nt <risk> <f2c-guard | f2c-noguard:why> <pipe-guard | pipe-noguard:which> x86:<ok|ok-beyond|cap> a64:<..> rv:<ok|ok-beyond|cap|noprint> ctx<log2 max context> size<log2 nodes>
         ok = within capacity and compiled; ok-beyond = compiled although outside the (sufficient)
         capacity predicate; cap = documented capacity panic outside the predicate *)
 From Coq Require Import List ZArith NArith String Bool.
 From SCC Require Import Base.Sexp Lang.SynUtil Lang.FunSyn Lang.CoreSyn Model.RunBase.
 From SCC Require Import Sem.FsCheck Sem.CoreCheck Model.FocusCheck Model.Fun2Core.
 From SCC Require Lang.AxSyn Sem.AxCheck Model.LinCheck Model.Capacity Model.RV Model.WtDefs.
-From SCC Require Import Lang.FunTy Model.Fun2CoreGuard Model.Fun2CoreTyGuard.
+From SCC Require Import Lang.FunTy Model.Fun2CoreGuard Model.Fun2CoreTyGuard Model.FocusTyGuard Sem.FsFrag2.
 Import ListNotations.
 Open Scope string_scope.
 
@@ -240,11 +243,24 @@ Definition wtstages_case (i r : sexp) : verdict :=
             end end end end end end end end end in
           let risk := shadowing_risk_prog fp in
           let g1 := prog_tyguard fp in
+          (* the hypotheses of theorem C12_pipeline_wt, the stage-output conditions evaluated on the REAL outputs *)
+          let g_pre := match core with SVal c => pre_check c | _ => true end in
+          let g_names := match foc with SVal f => FsFrag2.names_ok f | _ => true end in
+          let g_decls := match foc with SVal f => FsFrag2.decls_ok f | _ => true end in
+          let g2 := g1 && g_pre && g_names && g_decls in
+          let pipe_tag := if g2 then " pipe-guard"
+                          else if negb g1 then " pipe-noguard:f2c"
+                          else if negb g_pre then " pipe-noguard:pre_check"
+                          else if negb g_names then " pipe-noguard:names_ok" else " pipe-noguard:decls_ok" in
           match first with
           | Some (st, (true, why)) =>
               (* theorem C12_fun2core_preserves_typing_fragment2 confronted with the real translation *)
               if g1 && String.eqb st "core" && negb (contains "pre_check fails" why) && negb (contains "focus_wf fails" why)
               then VViol ("class=ill-typed-stage:core-inside-guard " ++ name ++ " prog_tyguard holds but: " ++ trunc 300 why)
+              (* theorem C12_pipeline_wt confronted with the real stages: inside its guards no checker may fail
+                 (the comparison of wt_fs with wt_core of the embedding is not part of the theorem) *)
+              else if g2 && negb (String.eqb st "checked") && negb (contains "wt_core (embed_prog f) rejects" why)
+              then VViol ("class=ill-typed-stage:" ++ st ++ "-inside-pipeline-guard " ++ name ++ " the guards of C12_pipeline_wt hold but: " ++ trunc 300 why)
               else
               if risk && String.eqb st "core" && is_rebinding_message why
               then VViol ("class=capture-under-binder " ++ name ++ " core: " ++ trunc 300 why)
@@ -262,6 +278,7 @@ Definition wtstages_case (i r : sexp) : verdict :=
           | None =>
               VOk ("nt " ++ (if risk then "shadow-risk" else "no-shadow")
                    ++ (if g1 then " f2c-guard" else " f2c-noguard:" ++ tyguard_why fp)
+                   ++ pipe_tag
                    ++ " " ++ fst bx ++ " " ++ fst ba ++ " " ++ fst br
                    ++ match lin with
                       | SVal a => " ctx" ++ n_to_string (N.log2 (N.of_nat (Capacity.max_ctx_prog a)))
